@@ -480,6 +480,54 @@ def c_ucase(c):
                 cb(i["thead"]), cz(i["tdelta"]), i["canary"], i["ncp"], cperms(i["cpb"]), cperms(i["cpa"])))
 
 
+# ---------------------------------------------------------------- module-type detection cases
+ELF_KINDS = {"plain": [], "pg": ["-pg"], "fentry": ["-pg", "-mfentry"]}
+
+
+def build_elfs(ctx):
+    """three real ELF files without patchable/xray sections: no profiling calls, mcount, __fentry__"""
+    d = os.path.join(ctx.scratch, "elfs")
+    os.makedirs(d, exist_ok=True)
+    src = os.path.join(d, "t.c")
+    open(src, "w").write("int f(int x) { return x + 1; }\nint main(void) { return f(1) - 2; }\n")
+    out = {}
+    for k, fl in ELF_KINDS.items():
+        exe = os.path.join(d, "elf-" + k)
+        sh(["gcc", "-O1"] + fl + ["-o", exe, src], check=True)
+        out[k] = exe
+    return out
+
+
+def gen_find_case(rng, i, elfs):
+    u = gen_update_case(rng, i)
+    kind = rng.choice(["plain", "plain", "plain", "pg", "fentry"])
+    # make the first ordinary function decisive more often: an endbr64 + NOP function alone, or none at all
+    return {"kind": "find", "elf": kind, "path": elfs[kind], "wbase": u["wbase"], "window": u["before"],
+            "syms": u["syms"], "tags": ["elf=" + kind] + [t for t in u["tags"] if t.startswith("pro=")]}
+
+
+def find_lines(c):
+    sy = " ".join("%d %d %d %s" % (a, sz, t, hx(n)) for a, sz, t, n in c["syms"])
+    return ["FIND %s %d %s %d %s" % (hx(c["path"]), c["wbase"], c["window"].hex(), len(c["syms"]), sy)]
+
+
+def read_find(out, c):
+    k = out.next().split()
+    if k[0] != "FT":
+        raise RuntimeError("c14 harness (FIND): unexpected line %r" % k)
+    c["itype"], c["chk"] = int(k[1]), int(k[2])
+
+
+def c_fcase(c):
+    return "{| f_chk := %s; f_wbase := %d; f_window := %s; f_syms := [%s]; i_type := %d |}" % (
+        cz(c["chk"]), c["wbase"], cb(c["window"]), ";".join(c_sym(s) for s in c["syms"]), c["itype"])
+
+
+def find_json(c):
+    return {"elf": c["elf"], "wbase": c["wbase"], "window": c["window"].hex(), "syms": [list(s) for s in c["syms"]],
+            "implementation": {"type": c.get("itype"), "check_trace_functions": c.get("chk")}}
+
+
 PRE = """From Coq Require Import NArith ZArith List Bool.
 Import ListNotations.
 Require Import UV.C14.Model.
@@ -487,8 +535,9 @@ Local Open Scope N_scope.
 """
 
 
-def evaluate(ctx, pcases, ucases, name="cases", fixed=False):
-    defs = "Definition pcases : list pcase := [\n%s\n].\n" % ";\n".join(c_pcase(c) for c in pcases)
+def evaluate(ctx, pcases, ucases, name="cases", fixed=False, fcases=()):
+    defs = "Definition fcases : list fcase := [\n%s\n].\n" % ";\n".join(c_fcase(c) for c in fcases)
+    defs += "Definition pcases : list pcase := [\n%s\n].\n" % ";\n".join(c_pcase(c) for c in pcases)
     defs += "Definition ucases : list ucase := [\n%s\n].\n" % ";\n".join(c_ucase(c) for c in ucases)
     res = coq.run_cases(ctx, name, PRE, defs, [
         ("p_mismatch", "bad_indices p_agrees pcases 0"),
@@ -496,6 +545,8 @@ def evaluate(ctx, pcases, ucases, name="cases", fixed=False):
         ("u_mismatch", "bad_indices (u_agrees %s) ucases 0" % cbool(fixed)),
         ("u_violations", "bad_indices u_ok ucases 0"),
         ("u_in_layout", "bad_indices (fun u => negb (u_layout u)) ucases 0"),
+        ("f_mismatch", "bad_indices (f_agrees true) fcases 0"),
+        ("f_violations", "bad_indices f_ok fcases 0"),
     ])
     if res is None:
         return None
@@ -528,17 +579,21 @@ def impl_json(c):
 
 
 # ---------------------------------------------------------------- in-process run
-def run_inproc(ctx, h, pcases, ucases):
+def run_inproc(ctx, h, pcases, ucases, fcases=()):
     lines = []
     for c in pcases:
         lines += pat_lines(c)
     for c in ucases:
         lines += upd_lines(c)
+    for c in fcases:
+        lines += find_lines(c)
     out = Out(h.run(lines))
     for c in pcases:
         read_pat(out, c)
     for c in ucases:
         read_upd(out, c)
+    for c in fcases:
+        read_find(out, c)
 
 
 def detect_variant(ctx, h):
@@ -552,9 +607,20 @@ def detect_variant(ctx, h):
     return c
 
 
-def verdict_inproc(ctx, pcases, ucases, res):
+def verdict_inproc(ctx, pcases, ucases, res, fcases=()):
     if res is None:
         return
+    for i in res.get("f_violations", [])[:3]:
+        c = fcases[i]
+        ctx.violation("C14 violated: a module with a patchable function (NOP form at the post-endbr64 entry of an "
+                      "ordinary function) gets a dynamic type that never patches (mcount_arch_find_module)",
+                      {"mode": "find", "case": find_json(c)}, True)
+    if res.get("f_mismatch") and not res.get("f_violations"):
+        c = fcases[res["f_mismatch"][0]]
+        ctx.violation("model and implementation of mcount_arch_find_module disagree (%d cases); the property checker "
+                      "accepts the implementation's choice on every explored case" % len(res["f_mismatch"]),
+                      {"correspondence": "C14.Model.find_module_type vs arch/x86_64/mcount-dynamic.c",
+                       "mode": "find", "case": find_json(c)}, False)
     for i in res["p_violations"][:3]:
         c = pcases[i]
         ctx.violation("C14 violated: match_pattern_list's verdict is not the polarity of the last matching "
@@ -598,14 +664,18 @@ def common_meta(ctx):
                 "sizes around max(min_size,6), symbol types, patchable-section targets (incl. symbol-less, "
                 "mid-symbol, duplicate), text end at page offsets {mid,4080,4081,4095,0,1}, pattern list; distinct = "
                 "distinct (layout, patterns, size filter); non-trivial = at least one pattern hits a queried name / "
-                "at least one function is visited with a non-zero decision; e2e cases: one generated program x "
-                "one -P/-U/-Z option set")
+                "at least one function is visited with a non-zero decision; find cases: the same generated function "
+                "windows and symbol tables x 3 real ELF files (no profiling symbol, mcount, __fentry__) through "
+                "mcount_arch_find_module, non-trivial = a patching type is chosen; e2e cases: one generated program "
+                "(5 build variants incl. -mfentry -mnop-mcount with endbr64) x one -P/-U/-Z option set, plus a sweep of "
+                "-Z values around INT_MAX, 2^32, LONG_MAX, 0 and negative numbers")
     ctx.trusted = [
         "Coq 8.16.1 kernel incl. vm_compute (no native_compute); axioms as printed by Print Assumptions (none)",
         "hand-written model coq/theories/C14/Model.v of libmcount/dynamic.c (parse_pattern_list, match_pattern_list, "
         "skip_sym, patch_{patchable,normal}_func_matched, mcount_save_code/freeze_code page effects) and "
         "arch/x86_64/mcount-dynamic.c (mcount_setup_trampoline, mcount_cleanup_trampoline, patch_fentry_code, "
-        "unpatch_func, mcount_patch_func, mcount_unpatch_func)",
+        "unpatch_func, mcount_patch_func, mcount_unpatch_func, the type decision of mcount_arch_find_module) and of the "
+        "-Z chain uftrace.c strtol -> int, cmds/record.c \"%d\", libmcount strtoul -> unsigned",
         "libc regcomp/regexec and fnmatch (bracket/backslash patterns) are oracles answered by the implementation "
         "itself; a Gallina matcher is used and cross-checked for literal, '*' and '?' patterns",
         "correspondence harness harness/c/c14_harness.c (#includes libmcount/dynamic.c, links the scratch build's "
@@ -616,7 +686,11 @@ def common_meta(ctx):
         "mprotect on a module's text range succeeds (all pages mapped); its failure path (return -1) is not modelled",
         "patching happens before main() in a single thread: safety of the 5-byte rewrite w.r.t. concurrently executing "
         "threads is not covered",
-        "symbol tables are sorted with disjoint ranges (find_sym = the unique symbol containing the address)",
+        "symbol tables are sorted with disjoint ranges (find_sym = the unique symbol containing the address); the "
+        "exactness theorems additionally need every endbr64 function >= 9 bytes and every -U'd function >= 6 bytes "
+        "(the check counts how many generated cases satisfy this: update_cases_in_domain_of_C14_update_exact_layout)",
+        "module-type detection: which sections an ELF has and what check_trace_functions answers are inputs of the model "
+        "(read from the real file / the real function); symbols outside the dumped text window are not probed end-to-end",
         "patch methods of this build only: __patchable_function_entries and fentry NOPs (no capstone, no xray); "
         "DYNAMIC_PG unpatching via __mcount_loc is not modelled",
     ]
@@ -644,8 +718,13 @@ def run(ctx):
     ucases = [gen_update_case(rng, i) for i in range(ctx.n(260, 3000))]
     # the known-defect class (a page must be added but the next page is occupied) is only visited by the witness
     ucases = [c for c in ucases if not c["fatal_expected"]]
+    elfs = build_elfs(ctx)
+    fcases = [gen_find_case(rng, i, elfs) for i in range(ctx.n(120, 1200))]
     wit = detect_variant(ctx, h)
-    run_inproc(ctx, h, pcases, ucases)
+    run_inproc(ctx, h, pcases, ucases, fcases)
+    for c in fcases:
+        ctx.case(key=("find", c["elf"], c["wbase"], c["window"], tuple(c["syms"])), nontrivial=c["itype"] != 0,
+                 tags=["find:" + t for t in set(c["tags"])] + ["find:type=%d" % c["itype"]], size=len(c["window"]))
     for c in pcases:
         ctx.case(key=("pat", c["ptype"], c["funcs"], c["defmod"], tuple(c["queries"])), nontrivial=nontrivial_pat(c),
                  tags=["pattern:" + t for t in c["tags"]] + ["ptype=%d" % c["ptype"]],
@@ -670,10 +749,10 @@ def run(ctx):
     # defect returns, the checker rejects the implementation's behaviour and a VIOLATION is reported.
     ctx.c14_fixed = True
     ctx.extra["trampoline_page_variant"] = "as found (pr_err)" if wit["impl"]["fatal"] else "repaired (returns -1)"
-    res = evaluate(ctx, pcases, ucases + [wit], fixed=True)
+    res = evaluate(ctx, pcases, ucases + [wit], fixed=True, fcases=fcases)
     if res is not None:
         ctx.case(key=("witness", KNOWN_KEY), tags=["update:witness-trampoline-page-occupied"])
-        verdict_inproc(ctx, pcases, ucases + [wit], res)
+        verdict_inproc(ctx, pcases, ucases + [wit], res, fcases)
     from props import c14_e2e
     c14_e2e.run(ctx, objdir, h)
 
@@ -695,6 +774,16 @@ def replay(ctx, obj):
         return
     c["queries"] = [(l, s, n) for l, s, n in c.get("queries", [])]
     c["tags"] = []
+    if mode == "find":
+        elfs = build_elfs(ctx)
+        f = {"kind": "find", "elf": c["elf"], "path": elfs[c["elf"]], "wbase": c["wbase"],
+             "window": bytes.fromhex(c["window"]), "syms": [tuple(x) for x in c["syms"]], "tags": []}
+        run_inproc(ctx, h, [], [], [f])
+        res = evaluate(ctx, [], [], fcases=[f])
+        ctx.case(key="replay", sample=find_json(f))
+        ctx.log("replayed:", find_json(f)["implementation"])
+        verdict_inproc(ctx, [], [], res, [f])
+        return
     if mode == "pattern":
         c["cli"] = [tuple(o) for o in c["cli"]] if c.get("cli") is not None else None
         run_inproc(ctx, h, [c], [])
